@@ -46,7 +46,12 @@ func init() {
 var keyCache = map[int]*ecdsa.PrivateKey{}
 
 // Key returns the i-th fixed harness key (secp256k1 scalar = sha256("verif-key-i")).
+// KeyShift maps node index i to harness key i+KeyShift while a cluster of
+// "strangers" is being built (C14); 0 otherwise.
+var KeyShift = 0
+
 func Key(i int) *ecdsa.PrivateKey {
+	i += KeyShift
 	if k, ok := keyCache[i]; ok {
 		return k
 	}
